@@ -4,9 +4,10 @@ from pyvc.loader import Repo
 from pyvc.engine import verify
 import importlib
 mod = importlib.import_module(sys.argv[1])
-repo = Repo('/repo', numpy_mode=getattr(mod.HARNESSES[0], 'numpy_mode', 'real'))
+import os
 for h in mod.HARNESSES:
     if len(sys.argv) > 2 and sys.argv[2] not in h.name: continue
+    repo = Repo(os.environ.get('VERIF_REPO', '/repo'), numpy_mode=getattr(h, 'numpy_mode', 'real'))
     t0=time.time()
     obs, stats = verify(h, repo)
     print(h.name, stats, round(time.time()-t0,2))
